@@ -2,7 +2,7 @@
 from harness import enc
 
 ID = "C05"
-MODULES = ["HeraProofs.Props.C05", "HeraProofs.Props.C05b", "HeraProofs.Props.C05c"]
+MODULES = ["HeraProofs.Props.C05", "HeraProofs.Props.C05b", "HeraProofs.Props.C05c", "HeraProofs.Props.C05d"]
 GENERATED_DEPS = ["Ops.lean", "Tables.lean", "Exec.lean"]
 EXPLANATION = ("Theorems: generic (all patterns, all words, no enumeration) round trips of the pattern matcher and "
                "substituter (Enc.subst_of_match, Enc.match_of_subst), side conditions decided on the regenerated BITV/P "
@@ -14,12 +14,15 @@ EXPLANATION = ("Theorems: generic (all patterns, all words, no enumeration) roun
                "to the table by a theorem too (C05c): C05_assemble_is_table - for every valid instruction (all operands, no "
                "enumeration) the assemble method regenerated from hera/op.py, applied to the bit pattern regenerated from the "
                "class's BITV, returns exactly the two bytes of the HERA table word Spec.encode; hence C05_assemble_injective "
-               "(the code never gives two different instructions one word) and C05_decode_assemble. The decoding side "
-               "(real disassemble = Spec.decode) is tied by complete enumeration of all 65 536 words on every run, and "
-               "Spec.encode is also compared with the real assembler on all 63 505 valid instances.")
-ASSUMPTIONS = ["'real disassemble = Spec.decode' is established by the exhaustive enumeration of all 65 536 words on every run "
-               "(a complete check of a finite domain), not by a Lean theorem; 'regenerated assemble = Spec.encode' is the theorem "
-               "C05_assemble_is_table (over the hand model of substitute_bitvector, corresponded exhaustively)"]
+               "(the code never gives two different instructions one word) and C05_decode_assemble. The decoding side (C05d): "
+               "C05_disassemble_is_table - whatever the disassembler model makes of a word is the operation of a valid instruction e, "
+               "the word is e's table word and Spec.decode gives e for it (every matched operand lies within its bit field: "
+               "matchGo_bound, generic in the pattern; field widths decided on the regenerated table). Both table functions are "
+               "additionally compared with the real assembler / disassembler on all 63 505 instances and all 65 536 words.")
+ASSUMPTIONS = ["'a word the table decodes is also decoded by the disassembler' (completeness of disassemble) is established by the "
+               "exhaustive enumeration of all 65 536 words on every run, not by a Lean theorem; soundness of both directions is "
+               "proved (C05_assemble_is_table, C05_disassemble_is_table) over the hand model of match_bitvector / "
+               "substitute_bitvector / disassemble, which is corresponded exhaustively with the real functions"]
 TRUSTED_EXTRA = ["hand model Model/Enc.lean of match_bitvector/substitute_bitvector/disassemble: exhaustive correspondence on all words and instances"]
 
 
